@@ -105,7 +105,7 @@ func tid() int { return vsched.CurThreadID() }
 func remove[T any](q []*waiter[T], w *waiter[T]) []*waiter[T] {
 	for i, x := range q {
 		if x == w {
-			return append(q[:i:i], q[i+1:]...)
+			return vrace.RemoveAt(q, i)
 		}
 	}
 	return q
